@@ -13,9 +13,12 @@ ServerAuthenticated(p) == p.roots = "right" /\ p.name \in {"match", "uri_match"}
 H2Agreed(p) == p.alpn = "h2" \/ p.assume_http2
 \* a server with a client CA serves only clients presenting a certificate issued by it, unless authentication is optional;
 \* a certificate from another CA is never acceptable
+\* p.client_ca (optional field): "proper" (default) or a PEM that yields no trust anchor ("empty", "key_only"): such a server
+\* cannot authenticate anybody, so nobody is served (tonic refuses the configuration)
+CaUsable(p) == ("client_ca" \notin DOMAIN p) \/ p.client_ca = "proper"
 ClientAccepted(p) == \/ p.client_auth = "none"
-                     \/ (p.client_auth = "required" /\ p.identity = "valid")
-                     \/ (p.client_auth = "optional" /\ p.identity \in {"none", "valid"})
+                     \/ (CaUsable(p) /\ p.client_auth = "required" /\ p.identity = "valid")
+                     \/ (CaUsable(p) /\ p.client_auth = "optional" /\ p.identity \in {"none", "valid"})
 \* rustls: a client offering h2 to a server that only speaks http/1.1 aborts the handshake whatever assume_http2 says
 AlpnCompatible(p) == p.alpn # "http/1.1"
 CallTransmitted(p) == p.tls_cfg /\ ServerAuthenticated(p) /\ H2Agreed(p) /\ AlpnCompatible(p) /\ ClientAccepted(p)
